@@ -8,6 +8,16 @@ VERIF = os.path.dirname(os.path.dirname(os.path.abspath(__file__)))
 BASELINE_OFF = "/verif/tool/baseline.sh"
 
 CLAIMED = {
+    "C02": dict(
+        technique="static analysis: table rules over the clang AST of UnitSystem.cpp/Units.hpp (reciprocal tables, dimensional formulas, compile-time constants vs an independent physical table, normal form of the conversion formulas) plus a scan of every compiled-in keyword's dimension strings",
+        text="Decides, for the conversion factors as written: to_/from_ tables of all five systems are mutual reciprocals entry by entry (230 pairs), every measure has the same frozen dimensional formula in METRIC/FIELD/LAB/PVT-M, offsets exist only for temperature, init<SYS> wires tables and registers the same 31 dimension names with the system's own constants, every one of the 163 constants equals its physical definition (1e-12), to_si/from_si/Dimension::convert* have the affine normal forms that make them inverse, composite dimensions are product/quotient, every dimension string of the 1184 compiled-in keywords resolves in all four systems, and the output conversions are mirror images. Not decided: that each keyword item carries the physically right dimension; end-to-end equality of SI values between two decks.",
+        note="Trusted: clang's compile-time evaluation of the constants; tables/measure_dims.json and tables/physical_units.json (independent oracle written from SI definitions and the Eclipse unit conventions).",
+        design="DESIGN.md §4 C02"),
+    "C09": dict(
+        technique="static analysis: the 550-entry keyword->function table of Summary.cpp extracted as terms and checked against a mnemonic grammar, sibling levels, three classifiers of 'cumulative', and shape rules on the flow primitives and evaluators",
+        text="Decides: every governed entry of the evaluator table has the term its mnemonic implies (phase, producer/injector, rate vs rate x step length, history, ratios); W/G/F siblings agree; a keyword is accumulated in the table iff SummaryState adds it up iff SummaryConfig types it Total (which is what switches on the well/own-group efficiency factor); every flow primitive skips wells that are absent or SHUT and weights by efac(); phase->unit pairing; every evaluator converts with from_si; the efficiency-factor walk up the group tree. Not decided: numeric accumulation over a history, traversal of a concrete group tree.",
+        note="Trusted: the mnemonic grammar in rules/C09.py (documented Eclipse naming), tables/c09_rate_units.json. Shape drift of the string classifiers yields exit 2, never a verdict.",
+        design="DESIGN.md §4 C09"),
     "C11": dict(
         technique="static analysis: member-coverage lint over the clang AST (every data member of every in-scope class with serializeOp must be named in serializeOp)",
         text="Decides the structural necessary condition the property's rationale names: every non-static data member of every class contained in EclipseState/Schedule/SummaryConfig/SummaryState/UDQState/Action::State/WellTestState/RestartValue that defines serializeOp is transferred by it (or is exempt as process-local/derived/documented, with the recomputation of derived members checked). Not decided: that the generic Serializer encodes and decodes each transferred member to an equal value, byte counts.",
